@@ -446,6 +446,18 @@ func GenModel(t *rapid.T, opts ModelOpts) (*t1ref.Font, map[string]bool) {
 			f.Enc[code] = name
 		}
 	}
+	// CharStrings entries that are not charstrings, some of them named by the
+	// encoding: they are not glyphs
+	if opts.Unusual && rapid.IntRange(0, 5).Draw(t, "junkchars") == 0 {
+		feat["junk-charstrings-entry"] = true
+		for i := rapid.IntRange(1, 2).Draw(t, "njunk"); i > 0; i-- {
+			name := "junk" + strconv.Itoa(i)
+			f.JunkChars = append(f.JunkChars, name)
+			if f.EncKind == t1ref.EncCustom {
+				f.Enc[rapid.IntRange(0, 255).Draw(t, "junkcode")] = name
+			}
+		}
+	}
 	// accented composites (several of them may share a base or an accent)
 	if !opts.NoSeac && rapid.IntRange(0, 2).Draw(t, "seac") == 0 {
 		var cands []*t1ref.Glyph
